@@ -54,12 +54,18 @@ def build(cfg, values=None):
         elif variant == 'offset':
             off = cfg.get('off', 3)
             size = size0 + off + 2
+            if cfg.get('preload'):
+                p.Nxx_cte, p.Nyy_cte, p.Nxy_cte = ctx.V('Nxx_cte'), ctx.V('Nyy_cte'), ctx.V('Nxy_cte')
             raw = p.calc_k0(size=size, row0=off, col0=off, silent=True, finalize=False)
             from compmech.sparse import finalize_symmetric_matrix
             if tuple(raw.shape) != (size, size):
                 obs.append(('shape', Sym.lift(raw.shape[0]), Sym.lift(size)))
             K = finalize_symmetric_matrix(raw).todict()
-            H = symmetric_completion(oracle_k0(ctx, p, model, s=s), shift=off)
+            H0 = oracle_k0(ctx, p, model, s=s)
+            if cfg.get('preload'):
+                for k, v in oracle_kG0(ctx, p, model, p.Nxx_cte, p.Nyy_cte, p.Nxy_cte, s=s).items():
+                    H0[k] = H0[k] + v if k in H0 else v
+            H = symmetric_completion(H0, shift=off)
         elif variant == 'y1y2':
             p.y1, p.y2 = ctx.V('y1'), ctx.V('y2')
             K = p.calc_k0(silent=True).todict()
@@ -132,6 +138,8 @@ def configs(tier, seed):
         out.append({'model': model, 'm': mm, 'n': nn, 'variant': 'full', 'offset_history': True, 'group': 'k0-after-offset-redefinition:%s' % model, 's': 2})
         out.append({'model': model, 'm': mm, 'n': nn, 'variant': 'y1y2', 'group': 'k0y1y2:%s' % model, 's': 2})
         out.append({'model': model, 'm': 2, 'n': 2, 'variant': 'offset', 'off': 3 + seed % 4, 'group': 'placement:%s' % model, 's': 2})
+        if model != 'kpanel' or not quick:
+            out.append({'model': model, 'm': 2, 'n': 1, 'variant': 'offset', 'off': 2 + seed % 3, 'preload': True, 'group': 'placement-with-preload:%s' % model, 's': 1 if model == 'kpanel' else 2})
         out.append({'model': model, 'm': 2, 'n': 2 if model != 'kpanel' else 1, 'variant': 'preload', 'group': 'preload:%s' % model, 's': 2})
         out.append({'model': model, 'm': 2, 'n': 1, 'variant': 'preload', 'sub': True, 'group': 'preload-sub:%s' % model, 's': 2})
         for which in ('Nxx_cte', 'Nyy_cte', 'Nxy_cte'):
